@@ -19,6 +19,7 @@ RULE = ("Hypothesis-generated force fields (1-3 blocks of 1-5 atoms, .ff and pol
 ASSUMPTIONS = ["reference model pbt/model.py (calibrated against the repository tests' expectations)",
                "independent .itp reader pbt/itp.py",
                "IOError/OSError raised by gen_params counts as clean rejection of the input"]
+RULE += (" Further flavours: molecules built from blocks of different nrexcl (every listed [ exclusions ] line must be there; generated ones on top are C14's matter), .itp blocks that use an atom name twice, links that name one of their residues only, links with [ info ]/[ warning ]/[ error ] messages, multi-term dihedrals repeating the parameters of a term, .txt sequence files over several lines.")
 BUDGET = {"quick": (16, 220), "thorough": (16, 6000)}
 
 
